@@ -723,3 +723,22 @@ Definition file_names_ok (s : skeleton) : bool :=
   let tops := top_names is_pkglevel s in
   let others := s_other_types s ++ s_other_vals s in
   nodupb tops && disjointb tops quals && disjointb tops others && disjointb quals others && nodupb (method_keys s).
+
+(* ------------------------------------------------------------------ generated parameter names *)
+(* template/var.go: varName for an UNNAMED (or _) parameter whose type is a named type T (ASCII):
+   varNameForType gives "err" for error, else the decapitalised type name (+ "MoqParam" if that changes
+   nothing); varName appends "Param" when the result is on its reserved list - the identifiers the built-in
+   templates use themselves (mock, callInfo), the Go keywords and the basic type names. *)
+Definition is_upper (b : byte) : bool := Nat.leb 65 (bnat b) && Nat.leb (bnat b) 90.
+Definition low (b : byte) : byte := if is_upper b then match Byte.of_nat (bnat b + 32) with Some x => x | None => b end else b.
+Definition decap (s : str) : str := match s with [] => [] | b :: t => low b :: t end.
+Definition reserved_names : list str :=
+  [L "mock"; L "callInfo"; L "break"; L "default"; L "func"; L "interface"; L "select"; L "case"; L "defer"; L "go";
+   L "map"; L "struct"; L "chan"; L "else"; L "goto"; L "package"; L "switch"; L "const"; L "fallthrough"; L "if";
+   L "range"; L "type"; L "continue"; L "for"; L "import"; L "return"; L "var";
+   L "string"; L "bool"; L "byte"; L "rune"; L "uintptr"; L "int"; L "int8"; L "int16"; L "int32"; L "int64";
+   L "uint"; L "uint8"; L "uint16"; L "uint32"; L "uint64"; L "float32"; L "float64"; L "complex64"; L "complex128"].
+Definition gen_name (tn : str) : str :=
+  let n := if seqb tn (L "error") then L "err"
+           else let d := decap tn in if seqb d tn then d ++ L "MoqParam" else d in
+  if smem n reserved_names then n ++ L "Param" else n.
